@@ -59,6 +59,14 @@ MUTANTS = [
     ("C04", "any-empty", "typhon/collocations/collocator.py", "        if not original_pairs.size:", "        if not original_pairs.any():"),
     ("C04", "allclose-cache", "typhon/collocations/collocator.py", "            return np.array_equal(lat, self.index.lat) \\\n                   & np.array_equal(lon, self.index.lon)", "            return np.allclose(lat, self.index.lat) \\\n                   & np.allclose(lon, self.index.lon)"),
     ("C04", "common-end-minus", "typhon/collocations/collocator.py", "pd.Timestamp(secondary.time.values.max().item(0)).tz_localize(None) + max_interval", "pd.Timestamp(secondary.time.values.max().item(0)).tz_localize(None) - max_interval"),
+    ("C13", "bin-matrix-swapped", "typhon/collocations/common.py", "        binned_data[rows_in_bins, primary_indices] \\\n            = var_data.isel(collocation=secondary_indices).values", "        binned_data[rows_in_bins, primary_indices] \\\n            = var_data.isel(collocation=primary_indices).values"),
+    ("C13", "reference-inverted", "typhon/collocations/common.py", "reference_index = groups[0] != reference", "reference_index = groups[0] == reference"),
+    ("C13", "nanmean-to-mean", "typhon/collocations/common.py", '"mean": lambda m, a: np.nanmean(m, axis=a),', '"mean": lambda m, a: np.mean(m, axis=a),'),
+    ("C13", "concat-offset-after", "typhon/collocations/collocator.py", "                data[\"Collocations/pairs\"][1, :] += secondary_size", "                data[\"Collocations/pairs\"][1, :] += secondary_size + 1"),
+    ("C13", "concat-offset-primary-for-both", "typhon/collocations/collocator.py", "                data[\"Collocations/pairs\"][1, :] += secondary_size", "                data[\"Collocations/pairs\"][1, :] += primary_size"),
+    ("C13", "expand-wrong-row", "typhon/collocations/common.py", '        **{groups[1] + "/collocation": pairs[1]}', '        **{groups[1] + "/collocation": pairs[0]}'),
+    ("C13", "rows-restart", "typhon/collocations/common.py", "        current_row[p] += 1", "        current_row[p] = 1"),
+    ("C13", "concat-mutates-input", "typhon/collocations/collocator.py", "                data = data.copy(deep=True)\n", ""),
 ]
 
 
